@@ -278,6 +278,13 @@ def cache_oracle(ops, outs, maxp, signers):
             prev = None
         elif f[0] == "dump":
             cur = parse_dump(out)
+            held = {}
+            for k, who in cur.items():
+                for j in who:
+                    held[j] = held.get(j, 0) + 1
+            for j, cnt in sorted(held.items()):
+                if cnt > maxp:
+                    return f"op {i}: {cnt} round caches hold a partial of signer {int(j)} (per-member bound {maxp})"
             if prev is not None:
                 for k, who in prev.items():
                     for j in who:
